@@ -57,6 +57,7 @@ fn stateless_stage(r: &mut Rng) -> (String, Option<Vec<String>>) {
 
 pub fn check(ctx: &mut Ctx) {
     check_long_prefix(ctx);
+    check_mixed_types(ctx);
     let n = ctx.budget(1600, 60000);
     for _ in 0..n {
         let mut r = ctx.rng.fork();
@@ -248,6 +249,56 @@ fn check_long_prefix(ctx: &mut Ctx) {
             continue;
         }
         ctx.case("long-prefix", &key, "pass", info.clone());
+        let c = run_both(ctx, q, &ab);
+        match compare(&c, true) {
+            F::Agree => ctx.case("model", &key, "pass", info),
+            F::Skip(w) => ctx.case("model", "", "skip", serde_json::json!({"why": w.split(':').next().unwrap_or("").to_string()})),
+            F::Disagree(d) => ctx.case("model", &key, "fdis", serde_json::json!({"what": d.chars().take(800).collect::<String>(), "case": info})),
+        }
+    }
+}
+
+/// raw-text extractors (parse, split, logfmt) over a column whose values change TYPE from line to
+/// line — fractions, integers beyond 2^53, small integers, booleans, words: what a line yields must
+/// not depend on what the line before it held
+fn check_mixed_types(ctx: &mut Ctx) {
+    let n = ctx.budget(200, 6000);
+    const VALS: &[&str] = &["1.5", "0.25", "-3.75", "9007199254740993", "1700000000123456789", "-9223372036854775807", "9223372036854775807", "18014398509481985", "7", "-7", "0", "true", "false", "word", "1e3", "1e-3", "007", "+5", "", "NaN", "inf", "12345678901234567890"];
+    for _ in 0..n {
+        let mut r = ctx.rng.fork();
+        let (q, mk): (&str, fn(&str, usize) -> String) = *r.pick(&[
+            ("* | parse \"value=* \" as v", (|v, i| format!("id={} value={} end\n", i, v)) as fn(&str, usize) -> String),
+            ("* | parse \"value=* \" as v | parse \"id=* \" as id", |v, i| format!("id={} value={} end\n", i, v)),
+            ("* | parse regex \"value=(?P<v>\\S*)\"", |v, i| format!("id={} value={} end\n", i, v)),
+            ("* | logfmt", |v, i| format!("id={} value={} end=1\n", i, v)),
+            ("* | split on \",\" as parts", |v, i| format!("{},{},x\n", i, v)),
+            ("* | json | parse \"v=*;\" from msg as v", |v, i| format!("{{\"id\":{},\"msg\":\"v={};\"}}\n", i, v)),
+        ]);
+        let (na, nb) = (1 + r.below(5), 1 + r.below(5));
+        let a: Vec<u8> = (0..na).map(|i| mk(*r.pick(VALS), i)).collect::<String>().into_bytes();
+        let b: Vec<u8> = (0..nb).map(|i| mk(*r.pick(VALS), 100 + i)).collect::<String>().into_bytes();
+        let mut ab = a.clone();
+        ab.extend(&b);
+        let key = ckey(q, &ab);
+        let info = serde_json::json!({"query": q, "A": String::from_utf8_lossy(&a), "B": String::from_utf8_lossy(&b)});
+        let (ra, rb, rab) = (imp::run(q, &a, "json", 10), imp::run(q, &b, "json", 10), imp::run(q, &ab, "json", 10));
+        if !rab.compiled || rab.panicked.is_some() || ra.panicked.is_some() || rb.panicked.is_some() {
+            ctx.case("mixed-types", "", "skip", serde_json::json!({"why": "did not run (judged by C04/C11)", "case": info}));
+            continue;
+        }
+        let mut cat = ra.stdout.clone();
+        cat.extend(&rb.stdout);
+        // per line on its own
+        let mut solo = vec![];
+        for line in ab.split_inclusive(|c| *c == b'\n') {
+            solo.extend(imp::run(q, line, "json", 10).stdout);
+        }
+        if cat != rab.stdout || solo != rab.stdout {
+            ctx.case("mixed-types", &key, "viol", serde_json::json!({"class": "", "what": "a line's output depends on the lines before it (run(A++B) differs from run(A)++run(B) or from the lines run one at a time)",
+                "got_AB": String::from_utf8_lossy(&rab.stdout), "got_A_then_B": String::from_utf8_lossy(&cat), "line_by_line": String::from_utf8_lossy(&solo), "case": info}));
+            continue;
+        }
+        ctx.case("mixed-types", &key, "pass", info.clone());
         let c = run_both(ctx, q, &ab);
         match compare(&c, true) {
             F::Agree => ctx.case("model", &key, "pass", info),
